@@ -666,6 +666,10 @@ where
                 }
             }
 
+            // the table may have changed:
+            // keep the recorded group length in line with its content
+            meta.update_information_group_length();
+
             Ok(FileDicomObject { meta, obj })
         } else {
             ReadUnrecognizedTransferSyntaxSnafu {
